@@ -184,13 +184,36 @@ pub fn parse_report(md: &MarkdownIt, src: &str, flags: &str) -> String {
     if let Some(p) = probe { res.push_str(&format!(" probe={}", p)); }
     if flags.contains('T') { res.push_str(&format!(" tree={}", tree1)); }
     if flags.contains('R') {
+        let dbg_before = if depth <= 150 { format!("{:?}", root) } else { String::new() };
         let html = root.render();
         let xhtml = root.xrender();
         let html2 = root.render();
         let mut rec = Recorder { ev: vec![] };
         root.node_value.render(&root, &mut rec);
         let tree2 = dump_tree(&root);
-        let pure = html == html2 && tree1 == tree2;
+        let mut pure = html == html2 && tree1 == tree2;
+        if depth <= 150 {
+            // rendering must not write anything into the tree, private fields included: compare the Debug form of a
+            // freshly parsed tree with the rendered one, and render an edited tree against an edited fresh tree
+            let fresh = md.parse(src);
+            if format!("{:?}", root) != dbg_before { pure = false; }
+            let mut a = root;
+            let mut b = fresh;
+            let edit = |n: &mut Node, _d: u32| {
+                if let Some(t) = n.cast_mut::<markdown_it::parser::inline::Text>() { t.content.push('!'); }
+            };
+            a.walk_mut(edit);
+            b.walk_mut(edit);
+            if a.render() != b.render() || a.xrender() != b.xrender() { pure = false; }
+            res.push_str(&format!(" html={} xhtml={} pure={}", h(&html), h(&xhtml), pure as u32));
+            if flags.contains('E') { res.push_str(&format!(" ev={}", rec.ev.join("|"))); }
+            if flags.contains('W') {
+                let mut n = 0u64; let mut maxd = 0u32;
+                a.walk(|_, d| { n += 1; if d > maxd { maxd = d; } });
+                res.push_str(&format!(" walk={}/{}", n, maxd));
+            }
+            return res;
+        }
         res.push_str(&format!(" html={} xhtml={} pure={}", h(&html), h(&xhtml), pure as u32));
         if flags.contains('E') { res.push_str(&format!(" ev={}", rec.ev.join("|"))); }
     }
